@@ -22,8 +22,10 @@ import (
 	"net"
 	"os"
 	"regexp"
+	"runtime"
 	"sort"
 	"strconv"
+	"strings"
 	"sync"
 	"testing"
 	"time"
@@ -44,9 +46,11 @@ import (
 func init() { MuxManagerStartDelay = 0 }
 
 type vccCmd struct {
-	A   string `json:"a"`
-	K   int    `json:"k"`
-	How string `json:"how,omitempty"`
+	A    string `json:"a"`
+	K    int    `json:"k"`
+	How  string `json:"how,omitempty"`
+	W    bool   `json:"w,omitempty"`    // Add: the peer of the new session never accepts streams ("wedged")
+	Hold bool   `json:"hold,omitempty"` // Add: park the listener notification of this AddConnection until AddRelease
 }
 type vccSched struct {
 	ID    string   `json:"id"`
@@ -64,6 +68,8 @@ type vccSess struct {
 	peerSess *yamux.Session
 	srv      *grpc.Server
 	key      string
+	wedged   bool
+	prefill  net.Conn // the stream that fills a wedged session's accept backlog
 }
 
 type vccRpc struct {
@@ -94,11 +100,23 @@ type vccHarness struct {
 	keySess map[string]int
 	table   []int
 	updates int
+	begun   int
 	nextID  int
 	rpcs    map[string]*vccRpc
 	burstN  int
 	broken  bool
 	ended   bool
+
+	handles map[int]session.ManagedMuxSession // registered sessions as the listeners saw them (no manager lock needed)
+	// a held add: the gate listener (in front of the MultiClientConn's) parks the notification of that AddConnection
+	holdArmed   bool
+	holdKey     string
+	holdParked  bool
+	holdArrived chan struct{}
+	holdCh      chan struct{}
+	holdID      int
+	holdKilled  []int
+	underLock   bool
 
 	stuckRuns int
 	fullWait  time.Duration
@@ -133,7 +151,7 @@ func (p *vccConnProvider) NewConnection() (net.Conn, error) {
 	}
 }
 func (p *vccConnProvider) CloseCh() <-chan struct{} { return vccClosedCh }
-func (p *vccConnProvider) Address() string         { return "vcc-pipe" }
+func (p *vccConnProvider) Address() string          { return "vcc-pipe" }
 
 func vccYamuxCfg() *yamux.Config {
 	cfg := yamux.DefaultConfig()
@@ -142,15 +160,28 @@ func vccYamuxCfg() *yamux.Config {
 }
 
 func (h *vccHarness) sessionFn(conn net.Conn) (*yamux.Session, error) {
-	s, err := yamux.Client(conn, vccYamuxCfg()) // as establisher.go
-	if err == nil {
-		h.mu.Lock()
-		for _, vs := range h.sess {
-			if vs.local == conn {
-				vs.sess = s
-				h.bySess[s] = vs
-			}
+	h.mu.Lock()
+	var mine *vccSess
+	for _, vs := range h.sess {
+		if vs.local == conn {
+			mine = vs
 		}
+	}
+	h.mu.Unlock()
+	cfg := vccYamuxCfg()
+	if mine != nil && mine.wedged {
+		cfg.AcceptBacklog = 1
+	}
+	s, err := yamux.Client(conn, cfg) // as establisher.go
+	if err == nil && mine != nil {
+		if mine.wedged {
+			// the peer never accepts: this stream is never acknowledged and fills the backlog, every further Open blocks
+			// until the session closes. Pings are still answered, so the session is healthy and stays registered.
+			mine.prefill, _ = s.Open()
+		}
+		h.mu.Lock()
+		mine.sess = s
+		h.bySess[s] = mine
 		h.mu.Unlock()
 	}
 	return s, err
@@ -161,8 +192,39 @@ func (h *vccHarness) component(_ context.Context, id string, s *yamux.Session) {
 	if vs := h.bySess[s]; vs != nil {
 		vs.key = id
 		h.keySess[id] = vs.id
+		if h.holdArmed {
+			h.holdArmed, h.holdKey = false, id
+		}
 	}
 	h.mu.Unlock()
+}
+
+// gate is registered IN FRONT of MultiClientConn.OnConnectionListUpdate. It parks the first notification that carries
+// the session of a held Add - the notification of that AddConnection - until the schedule releases it. While it is
+// parked the harness kills other sessions. With notifyChange under muxesLock their removal can only be published after
+// the release; if the add is published outside the lock the removal overtakes it.
+func (h *vccHarness) gate(gen int) OnConnectionListUpdate {
+	return func(m map[string]session.ManagedMuxSession) {
+		h.mu.Lock()
+		if gen != h.run || h.ended {
+			h.mu.Unlock()
+			return
+		}
+		h.begun++ // notifications begun (the harness's logging listener, last in the list, counts the finished ones)
+		if h.holdKey == "" || h.holdParked {
+			h.mu.Unlock()
+			return
+		}
+		if _, ok := m[h.holdKey]; !ok {
+			h.mu.Unlock()
+			return
+		}
+		h.holdParked = true
+		ch := h.holdCh
+		close(h.holdArrived)
+		h.mu.Unlock()
+		<-ch
+	}
 }
 
 // listener is registered AFTER MultiClientConn.OnConnectionListUpdate: when it runs (still under muxesLock) the
@@ -187,6 +249,12 @@ func (h *vccHarness) onUpdate(gen int, m map[string]session.ManagedMuxSession) {
 	}
 	sort.Ints(ids)
 	h.table = ids
+	h.handles = map[int]session.ManagedMuxSession{}
+	for k, v := range m {
+		if c, ok := h.keySess[k]; ok {
+			h.handles[c] = v
+		}
+	}
 	h.updates++
 	h.emit(map[string]interface{}{"ev": "Update", "keys": ids, "can": h.mcc.CanMakeCalls()})
 	h.mu.Unlock()
@@ -242,7 +310,9 @@ func (h *vccHarness) reset(sc *vccSched) {
 	h.ctx, h.cancel = context.WithCancel(context.Background())
 	h.dialCh, h.parked = make(chan net.Conn), false
 	h.sess, h.bySess, h.keySess = map[int]*vccSess{}, map[*yamux.Session]*vccSess{}, map[string]int{}
-	h.table, h.updates, h.nextID, h.rpcs, h.broken, h.ended = nil, 0, 0, map[string]*vccRpc{}, false, false
+	h.table, h.updates, h.begun, h.nextID, h.rpcs, h.broken, h.ended = nil, 0, 0, 0, map[string]*vccRpc{}, false, false
+	h.handles = map[int]session.ManagedMuxSession{}
+	h.holdArmed, h.holdKey, h.holdParked, h.holdID, h.holdKilled, h.underLock = false, "", false, 0, nil, false
 	h.log(map[string]interface{}{"ev": "Config", "id": sc.ID, "N": sc.N})
 	if h.fullWait == 0 {
 		h.fullWait = h.wait
@@ -265,7 +335,7 @@ func (h *vccHarness) reset(sc *vccSched) {
 	}
 	// grpc_mux_manager.go: []OnConnectionListUpdate{listener.OnConnectionListUpdate}
 	mgr, err := NewCustomMultiMuxManager(h.ctx, "vcc", builder, []session.StartManagedComponentFn{h.component},
-		[]OnConnectionListUpdate{mcc.OnConnectionListUpdate, h.listener(h.run)}, logger)
+		[]OnConnectionListUpdate{h.gate(h.run), mcc.OnConnectionListUpdate, h.listener(h.run)}, logger)
 	if err != nil {
 		panic(err)
 	}
@@ -297,20 +367,48 @@ func (h *vccHarness) mccKeys() []int {
 	return out
 }
 
-func (h *vccHarness) quiet(stuck string) {
-	tbl := []int{}
-	for k := range h.mgr.GetMuxConnections() {
-		h.mu.Lock()
-		c, ok := h.keySess[k]
-		h.mu.Unlock()
-		if !ok {
-			c = -1
-		}
-		tbl = append(tbl, c)
+// bounded runs f on a goroutine and gives up after the bounded wait: a tree in which a lock is never released must
+// give a verdict, not hang the harness (GetMuxConnections, Describe and CanMakeCalls all take locks of the proxy).
+func (h *vccHarness) bounded(f func()) bool {
+	done := make(chan struct{})
+	go func() {
+		f()
+		close(done)
+	}()
+	select {
+	case <-done:
+		return true
+	case <-time.After(h.wait):
+		return false
 	}
-	sort.Ints(tbl)
-	keys := h.mccKeys()
-	can := h.mcc.CanMakeCalls()
+}
+
+func (h *vccHarness) quiet(stuck string) {
+	tbl, keys, can := []int{}, []int{}, false
+	okLocks := h.bounded(func() {
+		t := []int{}
+		for k := range h.mgr.GetMuxConnections() {
+			h.mu.Lock()
+			c, ok := h.keySess[k]
+			h.mu.Unlock()
+			if !ok {
+				c = -1
+			}
+			t = append(t, c)
+		}
+		sort.Ints(t)
+		k2 := h.mccKeys()
+		c2 := h.mcc.CanMakeCalls()
+		h.mu.Lock()
+		tbl, keys, can = t, k2, c2
+		h.mu.Unlock()
+	})
+	h.mu.Lock()
+	tbl, keys, can = append([]int{}, tbl...), append([]int{}, keys...), can
+	h.mu.Unlock()
+	if !okLocks && stuck == "" {
+		stuck = "lock" // the table or the client connection's map could not even be read within the bounded wait
+	}
 	if stuck != "" && !h.broken {
 		// reported once; the rest of this run (and, after a few such runs, of this process) is not waited for as patiently
 		h.stuckRuns++
@@ -320,6 +418,13 @@ func (h *vccHarness) quiet(stuck string) {
 	if stuck != "" {
 		h.broken = true
 	}
+}
+
+// dialHangs: a goroutine of the client connection sits in muxSession.Open (scheduling aid only, never a verdict)
+func vccDialHangs() bool {
+	buf := make([]byte, 1<<20)
+	n := runtime.Stack(buf, true)
+	return strings.Contains(string(buf[:n]), "session.(*muxSession).Open")
 }
 
 func (h *vccHarness) tableHas(c int) bool { // caller holds h.mu
@@ -372,6 +477,16 @@ func (h *vccHarness) background(stop chan struct{}, done chan struct{}) {
 	}
 }
 
+func (h *vccHarness) releaseHold() {
+	h.mu.Lock()
+	ch := h.holdCh
+	h.holdCh, h.holdKey, h.holdArmed, h.holdParked = nil, "", false, false
+	h.mu.Unlock()
+	if ch != nil {
+		close(ch)
+	}
+}
+
 func (h *vccHarness) exec(cmd vccCmd, idx int) bool {
 	switch cmd.A {
 	case "Add":
@@ -381,54 +496,127 @@ func (h *vccHarness) exec(cmd vccCmd, idx int) bool {
 		l, p := net.Pipe()
 		h.mu.Lock()
 		h.nextID++
-		vs := &vccSess{id: h.nextID, local: l, peer: p}
+		vs := &vccSess{id: h.nextID, local: l, peer: p, wedged: cmd.W}
 		h.sess[vs.id] = vs
 		h.parked = false
-		h.emit(map[string]interface{}{"ev": "Cmd", "a": "Add", "k": vs.id})
+		if cmd.Hold {
+			h.holdArmed, h.holdKey, h.holdParked, h.holdID, h.holdKilled = true, "", false, vs.id, nil
+			h.holdArrived, h.holdCh = make(chan struct{}), make(chan struct{})
+		}
+		h.emit(map[string]interface{}{"ev": "Cmd", "a": "Add", "k": vs.id, "w": cmd.W, "hold": cmd.Hold})
 		ch := h.dialCh
+		arrived := h.holdArrived
 		h.mu.Unlock()
 		var err error
 		vs.peerSess, err = yamux.Server(p, vccYamuxCfg())
 		if err != nil {
 			panic(err)
 		}
-		vs.srv = grpc.NewServer(grpc.UnaryInterceptor(h.intercept(vs.id)))
-		adminservice.RegisterAdminServiceServer(vs.srv, &testservices.EchoAdminService{
-			ServiceName: strconv.Itoa(vs.id), Logger: log.NewNoopLogger(), Namespaces: map[string]bool{}, PayloadSize: 16})
-		go func() { _ = vs.srv.Serve(vs.peerSess) }()
+		if !cmd.W { // a wedged peer answers pings (yamux does) but never accepts a stream: no server on it
+			vs.srv = grpc.NewServer(grpc.UnaryInterceptor(h.intercept(vs.id)))
+			adminservice.RegisterAdminServiceServer(vs.srv, &testservices.EchoAdminService{
+				ServiceName: strconv.Itoa(vs.id), Logger: log.NewNoopLogger(), Namespaces: map[string]bool{}, PayloadSize: 16})
+			go func() { _ = vs.srv.Serve(vs.peerSess) }()
+		}
 		select {
 		case ch <- l:
 		case <-time.After(h.wait):
 			return false
 		}
+		if cmd.Hold {
+			// the notification of this AddConnection is parked in the gate listener
+			select {
+			case <-arrived:
+			case <-time.After(h.wait):
+				h.releaseHold()
+				h.quiet("hold")
+				return true
+			}
+			// is the table lock held across the notification? Only decides whether waiting for a removal to be published
+			// before the release can succeed at all; what is judged is the state after the release.
+			mm := h.mgr.(*multiMuxManager)
+			under := true
+			if mm.muxesLock.TryLock() {
+				mm.muxesLock.Unlock()
+				under = false
+			}
+			h.mu.Lock()
+			h.underLock = under
+			h.emit(map[string]interface{}{"ev": "Held", "k": vs.id, "underLock": under})
+			h.mu.Unlock()
+			return true // no snapshot while held (reading the table would wait for the same lock)
+		}
 		if !h.poll(func() bool { h.mu.Lock(); defer h.mu.Unlock(); return h.tableHas(vs.id) }) {
 			h.quiet("add")
+			return true
+		}
+		if cmd.W {
+			// give the client connection's connect attempt the time to get into session.Open (never a verdict)
+			dl := time.Now().Add(2 * time.Second)
+			for !vccDialHangs() && time.Now().Before(dl) {
+				time.Sleep(200 * time.Microsecond)
+			}
+		}
+	case "AddRelease":
+		h.mu.Lock()
+		id, killed, held := h.holdID, h.holdKilled, h.holdKey != "" || h.holdArmed
+		if held {
+			h.emit(map[string]interface{}{"ev": "Cmd", "a": "AddRelease", "k": id})
+		}
+		h.mu.Unlock()
+		if !held {
+			return false
+		}
+		h.releaseHold()
+		if !h.poll(func() bool {
+			h.mu.Lock()
+			defer h.mu.Unlock()
+			for _, k := range killed {
+				if h.tableHas(k) {
+					return false
+				}
+			}
+			return h.tableHas(id)
+		}) {
+			h.quiet("release")
+			return true
+		}
+		// every publication that was under way has to have landed before the state is judged: with the add published
+		// outside the lock, the late (stale) one is applied after the release
+		if !h.poll(func() bool { h.mu.Lock(); defer h.mu.Unlock(); return h.updates >= h.begun }) {
+			h.quiet("notify")
 			return true
 		}
 	case "Kill":
 		h.mu.Lock()
 		vs := h.sess[cmd.K]
-		ok := vs != nil && h.tableHas(cmd.K)
-		key := ""
+		holding := h.holdParked
+		ok := vs != nil && (h.tableHas(cmd.K) || (holding && vs.key != ""))
+		hd := h.handles[cmd.K]
+		under := h.underLock
 		if ok {
-			key = vs.key
-			h.emit(map[string]interface{}{"ev": "Cmd", "a": "Kill", "k": cmd.K, "how": cmd.How})
+			if holding {
+				h.holdKilled = append(h.holdKilled, cmd.K)
+			}
+			h.emit(map[string]interface{}{"ev": "Cmd", "a": "Kill", "k": cmd.K, "how": cmd.How, "held": holding})
 		}
 		h.mu.Unlock()
 		if !ok {
 			return false
 		}
-		if cmd.How == "local" {
-			s := h.mgr.GetMuxConnections()[key]
-			if s == nil {
-				return false
-			}
-			s.Close()
+		if cmd.How == "local" && hd != nil {
+			hd.Close()
 		} else {
 			_ = vs.peerSess.Close()
 		}
+		if holding && under {
+			return true // its removal cannot be published before the held add's notification returns
+		}
 		if !h.poll(func() bool { h.mu.Lock(); defer h.mu.Unlock(); return !h.tableHas(cmd.K) }) {
 			h.quiet("kill")
+			return true
+		}
+		if holding {
 			return true
 		}
 	case "Burst":
@@ -436,7 +624,14 @@ func (h *vccHarness) exec(cmd vccCmd, idx int) bool {
 		// at least burstN sequential calls; with a non-empty table, go on (bounded) until every registered session has
 		// answered one: round_robin over the resolver's endpoints reaches each of them once its subconn is ready
 		h.mu.Lock()
-		tbl := append([]int{}, h.table...)
+		tbl, wedged := []int{}, []int{}
+		for _, k := range h.table {
+			if vs := h.sess[k]; vs != nil && vs.wedged {
+				wedged = append(wedged, k) // registered and alive, but its peer never accepts a stream: cannot answer
+			} else {
+				tbl = append(tbl, k)
+			}
+		}
 		h.mu.Unlock()
 		servedBy := map[int]bool{}
 		covered := func() bool {
@@ -467,7 +662,7 @@ func (h *vccHarness) exec(cmd vccCmd, idx int) bool {
 			sv = append(sv, k)
 		}
 		sort.Ints(sv)
-		h.log(map[string]interface{}{"ev": "Spread", "table": tbl, "served": sv, "broken": h.broken})
+		h.log(map[string]interface{}{"ev": "Spread", "table": tbl, "wedged": wedged, "served": sv, "broken": h.broken})
 		if !covered() && !h.broken {
 			h.stuckRuns++
 			h.wait = h.fullWait / 20
@@ -539,6 +734,13 @@ func (h *vccHarness) runSchedule(sc *vccSched) bool {
 			break
 		}
 	}
+	h.mu.Lock()
+	stillHeld := h.holdCh != nil
+	h.mu.Unlock()
+	if stillHeld { // the schedule ended (or was cut) with an add still held
+		h.releaseHold()
+		h.poll(func() bool { h.mu.Lock(); defer h.mu.Unlock(); return h.updates >= h.begun })
+	}
 	if bgStop != nil {
 		close(bgStop)
 		select {
@@ -572,13 +774,13 @@ func (h *vccHarness) runSchedule(sc *vccSched) bool {
 	h.emit(map[string]interface{}{"ev": "End"})
 	h.mu.Unlock()
 	h.cancel()
-	h.poll(func() bool { return h.mgr.IsClosed() && len(h.mgr.GetMuxConnections()) == 0 })
 	h.mu.Lock()
 	ss := make([]*vccSess, 0, len(h.sess))
 	for _, s := range h.sess {
 		ss = append(ss, s)
 	}
 	h.mu.Unlock()
+	// sessions first: whatever sits in a hanging session.Open (and whoever waits behind it) gets out when they close
 	for _, s := range ss {
 		if s.srv != nil {
 			go s.srv.Stop()
@@ -586,9 +788,13 @@ func (h *vccHarness) runSchedule(sc *vccSched) bool {
 		if s.peerSess != nil {
 			go s.peerSess.Close()
 		}
+		if s.sess != nil {
+			go s.sess.Close()
+		}
 		_ = s.peer.Close()
 		_ = s.local.Close()
 	}
+	h.poll(h.mgr.IsClosed)
 	return ok
 }
 
